@@ -39,7 +39,7 @@ theorem cldrRule_respects (lang : String) : RespectsValue (cldrRule lang) := by
   obtain ⟨_, hi, hv, hw, hf, ht⟩ := h
   unfold cldrRule
   split <;> split <;>
-    simp only [cardEn, cardPl, cardRu, cardAr, cardFr, cardCs, cardLt, cardJa, cardSl, cardCy, cardRo,
+    simp only [cardEn, cardPl, cardRu, cardAr, cardFr, cardCs, cardLt, cardJa, cardSl, cardCy, cardRo, cardPt, cardPtPT,
       ordEn, ordFr, ordUk, ordCy, ordSv, ordOther, nEq, nModEq, nModIn, hn, hi, hv, hf] <;> rfl
 
 theorem crateRule_respects (lang : String) : RespectsValue (crateRule lang) := by
